@@ -327,6 +327,25 @@ class Machine:
             self.origin[ev["out"]] = self.origin.get(var)
         elif kind == "derive":
             out["y"] = self.derive(ev["as"], ev.get("subst", {}), ev["out"])
+        elif kind == "setitem":
+            x = self.pool[var]
+            key = self.resolve_key(ev["key"])
+            val = self.resolve_value(ev["value"], x, key)
+            x[key] = val
+        elif kind == "ufunc_out":
+            x = self.pool[var]
+            f = getattr(np, ev["ufunc"])
+            ins = [self.pool[a] if isinstance(a, str) else a for a in ev["args"]]
+            res = f(*ins, out=x)
+            out["same_object"] = res is x
+        elif kind == "compute_chunk_sizes":
+            x = self.pool[var]
+            sim = self.sim(ev)
+            import dask as _dask
+
+            with _dask.config.set(scheduler=sim):
+                x.compute_chunk_sizes()
+            self.stats["steps"] = self.stats.get("steps", 0) + sim.steps
         elif kind == "drop":
             self.pool.pop(var, None)
             self.env.vars.pop(var, None)
@@ -358,6 +377,25 @@ class Machine:
             self.bump(f"fault.{kind}")
         fakes.set_phase("build")
         return out
+
+    def resolve_key(self, key):
+        """JSON key -> real index object (dask masks are built from pool vars)."""
+        if isinstance(key, dict) and "dask_mask" in key:
+            src = self.pool[key["dask_mask"]["var"]]
+            return src > key["dask_mask"]["thr"]
+        if isinstance(key, dict) and "np_mask" in key:
+            return np.array(key["np_mask"], dtype=bool)
+        return G.from_json_index(key)
+
+    def resolve_value(self, v, x, key):
+        if isinstance(v, dict):
+            if "array" in v:
+                return np.array(v["array"], dtype=v.get("dtype", "f8"))
+            if "self_expr" in v:
+                return x[key] * v["self_expr"]
+            if "var" in v:
+                return self.pool[v["var"]]
+        return v
 
     def log_event(self, ev, extra=None):
         rec = [self.stepno, ev["ev"], ev.get("var")]
